@@ -13,7 +13,7 @@ import check, gens
 from check import f2b, b2f
 
 GEN = ['numeric', 'tables']
-LEAN_MODULES = ['XfabVerif.Proofs.C07', 'XfabVerif.Proofs.C07Tables']
+LEAN_MODULES = ['XfabVerif.Proofs.C07', 'XfabVerif.Proofs.C07Tables', 'XfabVerif.Proofs.C07Perturb']
 # definitions the hand-written model mirrors (see harness/pins.py): a source change breaks the tie
 PINS = ['xfab/structure.py:StructureFactor']
 LEAN_DRIVER_MODULES = ['XfabVerif.Model.SFFloat']
